@@ -60,6 +60,9 @@ def _observe(job):
                 v = np.array([g[j] for i, j in sel])
                 try:
                     m2.percent_point(y.copy(), v.copy())
+                except Exception:
+                    pass
+                try:
                     m2.theta, m2.tau = m.theta, m.tau
                     out = O.fx(np.asarray(m2.percent_point(y.copy(), v.copy()), dtype=float))
                     for t, (i, j) in enumerate(sel):
